@@ -262,7 +262,7 @@ def run(ctx):
                  heap="12g" if ctx.thorough else None)
     if ctx.thorough:      # (quick: the simulated histories emitted for replay below are checked against the same invariants)
         vlib.tlc(ctx, "FileStream", _cfg(40, view=True, minops=40, props=False),
-                 simulate=2000, depth=500, seed=ctx.seed, label="FileStream-sim40", timeout=900)
+                 simulate=1000, depth=500, seed=ctx.seed, label="FileStream-sim40", timeout=900)
     # 2. every open deviation really breaks the property in the model
     for d in opendevs:
         vlib.expect_dev_counterexample(ctx, "FileStream", _cfg(4, (d,), invs=["NeverWrong", "ExactlyOnce"]), d, timeout=600)
@@ -291,7 +291,7 @@ def run(ctx):
     _witnesses(ctx, binary, opendevs, departs,
                lambda sc: len(sc["ops"]) <= first_bound and sc["pre"] in first_pre and set(sc["ops"]) <= set(OPS))
     # long simulated histories
-    sim = _emit(ctx, 40, "sim40", shards, simulate=1500 if ctx.thorough else 150, seed=ctx.seed * 31 + 5)
+    sim = _emit(ctx, 40, "sim40", shards, simulate=800 if ctx.thorough else 150, seed=ctx.seed * 31 + 5)
     if sim.first:
         ctx.sample({"history": render(sim.first[0])})
     _classify(ctx, binary, _harness(ctx, binary, sim, "simulated histories"), opendevs, "simulated histories")
